@@ -61,11 +61,26 @@ Definition in_rng (r : option (Z * Z)) (z : Z) : bool :=
   match r with Some (lo, hi) => Z.leb lo z && Z.leb z hi | None => false end.
 
 Definition is_try (k : conv_kind) : bool :=
-  match k with TryNN | TryPN | TrySPN => true | _ => false end.
+  match k with CTry => true | CFrom => false end.
 
 (** tag 40 (C04: only range membership and failure are observed) and tag 50 (C05: exact values) *)
-Definition check_conv (exact : bool) (idx : nat) (x : Z) (obs : list Z) : verdict :=
-  match nth_error conv_table idx with
+Definition kind_eqb (a b : conv_kind) : bool :=
+  match a, b with CFrom, CFrom | CTry, CTry => true | _, _ => false end.
+
+(** the record names the conversion by kind and grid position (the grid of harness/src/probe.rs);
+    it must be an entry of the regenerated table, otherwise the record is rejected *)
+Definition conv_entry (kind : Z) (s d : nat) : option (conv_kind * String.string * String.string) :=
+  match nth_error grid_types s, nth_error grid_types d with
+  | Some src, Some dst =>
+      let k := if Z.eqb kind 0 then CFrom else CTry in
+      if existsb (fun e => match e with (k', a, b) => kind_eqb k k' && String.eqb a src && String.eqb b dst end)
+                 conv_table
+      then Some (k, src, dst) else None
+  | _, _ => None
+  end.
+
+Definition check_conv (exact : bool) (kind : Z) (s d : nat) (x : Z) (obs : list Z) : verdict :=
+  match conv_entry kind s d with
   | None => bad_record
   | Some (k, src, dst) =>
       if negb (in_rng (type_range newtype_defs src) x) then bad_record
@@ -1065,10 +1080,10 @@ Definition check (tag : Z) (inp obs : list Z) : verdict :=
           (Nat.eqb (length obs) 46 && negb (existsb (Z.eqb ZPANIC) obs) && listZ_eqb acc1 acc2 &&
            listZ_eqb by1 (enc_bytes b1) && listZ_eqb by2 (enc_bytes b2))
           model
-  | 40, [cfg; idx; neg; l3; l2; l1; l0] =>
-      check_conv false (Z.to_nat idx) (dec_big neg l3 l2 l1 l0) obs
-  | 50, [cfg; idx; neg; l3; l2; l1; l0] =>
-      check_conv true (Z.to_nat idx) (dec_big neg l3 l2 l1 l0) obs
+  | 40, [cfg; kind; s; d; neg; l3; l2; l1; l0] =>
+      check_conv false kind (Z.to_nat s) (Z.to_nat d) (dec_big neg l3 l2 l1 l0) obs
+  | 50, [cfg; kind; s; d; neg; l3; l2; l1; l0] =>
+      check_conv true kind (Z.to_nat s) (Z.to_nat d) (dec_big neg l3 l2 l1 l0) obs
   | 41, [cfg; tidx; v] => check_new cfg (Z.to_nat tidx) (nz v) obs
   | 42, tidx :: chars => check_parse (Z.to_nat tidx) (map nz chars) obs
   | 43, [tidx] => check_consts (Z.to_nat tidx) obs
